@@ -152,11 +152,12 @@ def campaign(c, ctx, r, nprogs, mask, tier, want_stats=False, variants=("pred", 
         sf = os.path.join(ctx["sd"], "stats_%s" % tag) if want_stats else "-"
         nostate = [0, 2, 0, 3][(pr["idx"] + ci) % 4]      # half of the runs: some LPs never call SetState() (their state is reached without the API's pointer)
         res = S.run_sim(ctx["exe"], pr["path"], threads=th, ckpt=ck, gvt=gp, tend=pr["tend"], stats=sf, trace_file=tf,
-                        trace_mask=mask, watchdog=watchdog, timeout=watchdog + 30, ranks=ranks, delay=delay, net=net, nostate=nostate)
+                        trace_mask=mask, watchdog=watchdog, timeout=watchdog + 30, ranks=ranks, delay=delay, net=net, nostate=nostate,
+                        init_via=((pr["idx"] + ci) % 3 == 1))        # a third of the runs: initial events cross LPs / threads / ranks
         tr = S.read_trace(tf) if tf else []
         if tf and os.path.exists(tf):
             os.remove(tf)
-        return dict(prog=pr, cfg=(th, ck, gp, ranks), res=res, trace=tr, stats=(sf + ".bin") if want_stats else None, delay=delay, net=net, nostate=nostate)
+        return dict(prog=pr, cfg=(th, ck, gp, ranks), res=res, trace=tr, stats=(sf + ".bin") if want_stats else None, delay=delay, net=net, nostate=nostate, init_via=((pr["idx"] + ci) % 3 == 1))
 
     with ThreadPoolExecutor(jobs) as ex:
         runs = list(ex.map(one, jobs_list))
@@ -188,7 +189,7 @@ def worker_report(c, runs, quiet_if_violations=False):
 
 def describe(run):
     th, ck, gp, ranks = run["cfg"]
-    return dict(threads=th, checkpoint_interval=ck, gvt_period_us=gp, ranks=ranks, variant=run["prog"]["variant"], injected_delay=run.get("delay"), network_delays=run.get("net"), lps_without_setstate_mod=run.get("nostate", 0),
+    return dict(threads=th, checkpoint_interval=ck, gvt_period_us=gp, ranks=ranks, variant=run["prog"]["variant"], injected_delay=run.get("delay"), network_delays=run.get("net"), lps_without_setstate_mod=run.get("nostate", 0), initial_events_sent_by_neighbour=run.get("init_via", False),
                 tend=run["prog"]["tend"], cmd=run["res"].cmd)
 
 
